@@ -17,7 +17,7 @@ LEVEL_TEXT = (
     'fixed-seed one and a sort precedes the feed loop, no interior mutability / pointer identity in '
     'state types. Does not decide collision-freedom or value-level coherence of VectorClock.')
 
-FLOORS = {'C04-R1': 8, 'C04-R2': 4, 'C04-R3': 3, 'C04-R4': 6, 'C04-R5': 8, 'C04-R6': 4, 'C04-R7': 5}
+FLOORS = {'C04-R1': 8, 'C04-R2': 4, 'C04-R3': 3, 'C04-R4': 6, 'C04-R5': 8, 'C04-R6': 4, 'C04-R7': 5, 'C20-R4': 3}
 
 HASH = 'std::hash::Hash'
 PEQ = 'std::cmp::PartialEq'
@@ -524,6 +524,11 @@ def run(ctx):
         c07.r3_fifo(ctx, F)
     with ctx.rule('C07-R2', 'network'):
         c07.r2_effect_kinds(ctx, F)
+    # "trailing-zero padding": the vector clock's hash leaves out the padding and nothing else
+    import c20
+    ctx.doc('C20-R4', 'VectorClock::hash feeds one length-prefixed slice of the components, cut by a scan from the back')
+    with ctx.rule('C20-R4', 'VectorClock'):
+        c20.vclock_hash_rules(ctx, F)
 
 
 SET_LIKE = [
